@@ -45,6 +45,7 @@ type CheckSpec struct {
 	Rule        string
 	Extra       func(s *Session, tier string) (map[string]any, []string) // additional concrete sub-checks: (evidence, violations)
 	Workers     int
+	Instrument  bool // concurrency files get a Yield before every statement
 }
 
 type KnownFinding struct {
@@ -181,7 +182,7 @@ func (r *replayer) run(outDir, tag string, cases []replayCase) (map[string]repla
 	}
 	w.Flush()
 	f.Close()
-	cmd := exec.Command(r.bin, "-test.run", "^TestZZReplay$", "-test.count=1", "-test.timeout=20m")
+	cmd := exec.Command(r.bin, "-test.run", "^TestZZReplay$", "-test.count=1", "-test.timeout=10m")
 	cmd.Dir = r.dir
 	cmd.Env = append(os.Environ(), "VERIF_CASES="+cf, "VERIF_RESULTS="+rf)
 	out, err := cmd.CombinedOutput()
@@ -266,7 +267,11 @@ func runCheck(spec *CheckSpec, tier string, seed, workers int) int {
 		fmt.Println("CHECK-ERROR:", msg)
 		return 2
 	}
-	sess, err := NewSession(SessionOpts{Tier: tier, Patterns: spec.Patterns, NeedShapes: spec.NeedShapes, NeedHelper: spec.NeedHelper, OutName: spec.ID})
+	var instr []string
+	if spec.Instrument {
+		instr = concFiles
+	}
+	sess, err := NewSession(SessionOpts{Tier: tier, Patterns: spec.Patterns, NeedShapes: spec.NeedShapes, NeedHelper: spec.NeedHelper, OutName: spec.ID, Instrument: instr})
 	if err != nil {
 		return fail(err.Error())
 	}
@@ -397,7 +402,7 @@ func runCheck(spec *CheckSpec, tier string, seed, workers int) int {
 		}
 		for wi, w := range r.Witnesses {
 			id := fmt.Sprintf("w-%s-%d-%d", r.Job.Harness, r.Job.Shape, wi)
-			witnessCases = append(witnessCases, replayCase{ID: id, Harness: r.Job.Harness, Shape: r.Job.Shape, Model: w.Model})
+			witnessCases = append(witnessCases, replayCase{ID: id, Harness: r.Job.Harness, Shape: r.Job.Shape, Model: w.Model, Sched: w.Sched})
 			witnessExpect[id] = w
 			witnessRun[id] = run
 			if len(samples) < 3 {
@@ -739,6 +744,9 @@ func writeReplayScript(dir string, spec *CheckSpec, run HarnessRun, cv *confirme
 }
 
 func cleanupOut(dir string) {
+	if os.Getenv("SYMGO_KEEP") != "" {
+		return
+	}
 	ents, _ := os.ReadDir(dir)
 	for _, e := range ents {
 		n := e.Name()
